@@ -670,6 +670,47 @@ func (u *Unit) callByContract(st *State, fr *Frame, in *ssa.Call, fn *ssa.Functi
 			}
 		}
 	}
+	// a callee that takes a function value may call it: the callback trace grows
+	var collectors []collector
+	takesFunc := false
+	for i, a := range args {
+		if fv, ok := a.(FuncV); ok {
+			takesFunc = true
+			if fv.Fn != nil {
+				if c, ok := u.collectorClosure(st, fv); ok {
+					collectors = append(collectors, c)
+				} else {
+					u.unsupported("contract call of %s with a known closure argument %d whose effects are not summarised", key, i)
+					return nil, false
+				}
+			}
+		}
+	}
+	var oldTlen *Term
+	if takesFunc {
+		if st.tlen == nil {
+			st.tlen = IntK(0)
+		}
+		oldTlen = st.tlen
+		oldArg, oldRet := st.targ, st.tret
+		st.tlen = Fresh("cb.len", SortInt)
+		st.assume(IntLe(oldTlen, st.tlen))
+		asort := BVSort(16)
+		if oldArg != nil {
+			asort = oldArg.sort()
+		} else if len(collectors) > 0 {
+			asort = collectors[0].elemSort
+		}
+		st.targ = baseMem{Fresh("cb.arg", ArrSort(SortInt, asort))}
+		st.tret = baseMem{Fresh("cb.ret", ArrSort(SortInt, SortBool))}
+		if oldArg != nil {
+			na, nr, ol := st.targ, st.tret, oldTlen
+			st.qh = append(st.qh, &QHyp{text: "callback trace prefix", n: 1, sorts: []*Sort{SortInt}, inst: func(ks []*Term) *Term {
+				k := ks[0]
+				return Implies(And(IntLe(IntK(0), k), IntLt(k, ol)), And(Eq(na.read(k), oldArg.read(k)), Eq(nr.read(k), oldRet.read(k))))
+			}})
+		}
+	}
 	var ret Value
 	rs := fn.Signature.Results()
 	switch rs.Len() {
@@ -682,6 +723,34 @@ func (u *Unit) callByContract(st *State, fr *Frame, in *ssa.Call, fn *ssa.Functi
 			tv = append(tv, u.havoc(st, rs.At(i).Type(), fmt.Sprintf("%s.ret%d", fn.Name(), i)))
 		}
 		ret = tv
+	}
+	// effect summary of a collecting closure: it appended the argument of every call to its captured slice and
+	// returned true each time
+	for _, c := range collectors {
+		delta := IntSub(st.tlen, oldTlen)
+		old := st.objs[c.cell].(SliceV)
+		r := u.newRegion(old.R.Elem, "collected")
+		if old.R == nil {
+			u.unsupported("collector closure over a nil slice")
+			return nil, false
+		}
+		r.fresh, r.zero = true, true
+		es := c.elemSort
+		u.appending = true
+		u.setComp(st, r, "", copyMem{copyMem{zeroMem{es}, IntK(0), old.Len, u.compMem(st, old.R, "", es), old.Off}, old.Len, delta, st.targ, oldTlen})
+		u.appending = false
+		nl := IntAdd(old.Len, delta)
+		ncap := Fresh("appendcap", SortInt)
+		st.assume(IntLe(nl, ncap))
+		st.objs[c.cell] = SliceV{r, IntK(0), nl, ncap}
+		st.alloc = IntAdd(st.alloc, IntMul(delta, IntK(typeSize(old.R.Elem))))
+		nr, ol, nlen := st.tret, oldTlen, st.tlen
+		st.addInst(IntSub(st.tlen, IntK(1)))
+		st.addInst(oldTlen)
+		st.qh = append(st.qh, &QHyp{text: "collector returns true", n: 1, sorts: []*Sort{SortInt}, inst: func(ks []*Term) *Term {
+			k := ks[0]
+			return Implies(And(IntLe(ol, k), IntLt(k, nlen)), nr.read(k))
+		}})
 	}
 	if ct.FreshRes {
 		markFresh(u, st, ret)
@@ -769,4 +838,109 @@ func markForeign(v Value) {
 			markForeign(f)
 		}
 	}
+}
+
+// collector: a closure of the form func(x T) bool { *cell = append(*cell, x); return true }.
+type collector struct {
+	cell     *Object
+	elemSort *Sort
+}
+
+func (u *Unit) collectorClosure(st *State, fv FuncV) (collector, bool) {
+	fn := fv.Fn
+	if len(fn.FreeVars) != 1 || len(fv.Binds) != 1 || len(fn.Params) != 1 {
+		return collector{}, false
+	}
+	p, ok := fv.Binds[0].(PtrV)
+	if !ok || p.Obj == nil || len(p.Path) != 0 {
+		return collector{}, false
+	}
+	sl, ok := st.objs[p.Obj].(SliceV)
+	if !ok || sl.R == nil {
+		return collector{}, false
+	}
+	es := scalarSort(sl.R.Elem)
+	if es == nil {
+		return collector{}, false
+	}
+	stores, appends := 0, 0
+	for _, b := range fn.Blocks {
+		for _, in := range b.Instrs {
+			switch x := in.(type) {
+			case *ssa.Store:
+				if x.Addr == fn.FreeVars[0] {
+					stores++
+					c, ok := x.Val.(*ssa.Call)
+					if !ok {
+						return collector{}, false
+					}
+					bi, ok := c.Common().Value.(*ssa.Builtin)
+					if !ok || bi.Name() != "append" {
+						return collector{}, false
+					}
+					ld, ok := c.Common().Args[0].(*ssa.UnOp)
+					if !ok || ld.X != fn.FreeVars[0] {
+						return collector{}, false
+					}
+					appends++
+				} else if a, ok := x.Addr.(*ssa.Alloc); ok {
+					_ = a // parameter cell, varargs array
+				} else if ia, ok := x.Addr.(*ssa.IndexAddr); ok {
+					if _, ok := ia.X.(*ssa.Alloc); !ok {
+						return collector{}, false
+					}
+				} else {
+					return collector{}, false
+				}
+			case *ssa.Return:
+				if len(x.Results) != 1 {
+					return collector{}, false
+				}
+				if !alwaysTrue(fn, x.Results[0]) {
+					return collector{}, false
+				}
+			case *ssa.Call:
+				if bi, ok := x.Common().Value.(*ssa.Builtin); !ok || (bi.Name() != "append" && bi.Name() != "ssa:deferstack") {
+					return collector{}, false
+				}
+			case *ssa.If, *ssa.MapUpdate, *ssa.Go, *ssa.Defer:
+				return collector{}, false
+			}
+		}
+	}
+	if stores != 1 || appends != 1 {
+		return collector{}, false
+	}
+	return collector{p.Obj, es}, true
+}
+
+// alwaysTrue: v is the constant true, or a load of a local whose every store is the constant true.
+func alwaysTrue(fn *ssa.Function, v ssa.Value) bool {
+	isTrue := func(x ssa.Value) bool {
+		c, ok := x.(*ssa.Const)
+		return ok && c.Value != nil && c.Value.String() == "true"
+	}
+	if isTrue(v) {
+		return true
+	}
+	ld, ok := v.(*ssa.UnOp)
+	if !ok {
+		return false
+	}
+	cell, ok := ld.X.(*ssa.Alloc)
+	if !ok {
+		return false
+	}
+	n := 0
+	for _, b := range fn.Blocks {
+		for _, in := range b.Instrs {
+			if s, ok := in.(*ssa.Store); ok && s.Addr == cell {
+				n++
+				if !isTrue(s.Val) {
+					return false
+				}
+			}
+		}
+	}
+	return n > 0
 }
